@@ -19,6 +19,9 @@ fn main() {
         nshards: 1,
         out: PathBuf::from("."),
         extra: Vec::new(),
+        permille: 4,
+        budget: 6,
+        every: 5,
     };
     let mut i = 2;
     while i < argv.len() {
@@ -35,6 +38,18 @@ fn main() {
                 let p: Vec<&str> = argv[i + 1].split('/').collect();
                 args.shard = p[0].parse().unwrap();
                 args.nshards = p[1].parse().unwrap();
+                i += 2;
+            }
+            "--permille" => {
+                args.permille = argv[i + 1].parse().unwrap_or(4);
+                i += 2;
+            }
+            "--budget" => {
+                args.budget = argv[i + 1].parse().unwrap_or(6);
+                i += 2;
+            }
+            "--every" => {
+                args.every = argv[i + 1].parse().unwrap_or(5);
                 i += 2;
             }
             "--out" => {
